@@ -714,8 +714,20 @@ func c05PureGen(r *Rng, id int) c05Case {
 // ---------- real application ----------
 
 func c05AppGen(r *Rng, id int) c05Case {
-	c := c05Case{ID: id, Kind: "app", Imb: r.Pick(500, 500, 400, 300, 650, 200)}
+	c := c05Case{ID: id, Kind: "app", Imb: r.Pick(500, 500, 400, 300, 650, 200, 850, 150, 900)}
 	n := 8 + r.Intn(8)
+	if c.Imb >= 850 || c.Imb <= 150 {
+		// a pool far off its target weights (beyond the weight-recovery threshold): consecutive single-sided joins of the
+		// UNDER-weight asset (the weight-recovering direction, bonus branch), each priced from the accounted pool the
+		// previous join must have refreshed
+		d := 0 // pool assets are sorted by denom: 0 = uatom, 1 = uusdc; Imb is the uusdc permille
+		if c.Imb <= 150 {
+			d = 1
+		}
+		for j := 0; j < 2+r.Intn(2); j++ {
+			c.Ops = append(c.Ops, c05AppOp{Op: "join_oracle_single", User: 1 + r.Intn(3), D: d, Coins: []c05Coin{{D: 0, A: r.Decade(7, 10).String()}}})
+		}
+	}
 	for k := 0; k < n; k++ {
 		u := 1 + r.Intn(3)
 		x := r.Intn(100)
@@ -773,7 +785,7 @@ func c05AppExec(t *testing.T, col *Collector, c c05Case) []string {
 	w := NewWorld(t)
 	o := DefaultMarketOpts()
 	o.Users = 5
-	o.NoLeverage = true
+	o.NoLeverage = c.ID%2 == 0 // every other history runs with leveragelp/perpetual enabled on the oracle pool: joins are then priced from the ACCOUNTED pool
 	if c.Imb > 0 { // value split of the oracle pool: USDC permille of a 2e11 TVL
 		o.OracleUSDC = 200_000_000 * c.Imb
 		o.OracleATOM = 200_000_000 * (1000 - c.Imb) / 5
